@@ -321,12 +321,15 @@ func (l *PartitionLog) Flush(ctx context.Context) error {
 	if l.onFlush != nil {
 		target := artifact
 		if target == nil {
+			// Nothing was drained by this call. Publish the end of the last
+			// segment that is actually committed in S3, never nextOffset-1:
+			// offsets can be assigned (after a failed or still running flush)
+			// without being durable yet.
 			l.mu.Lock()
-			current := l.nextOffset - 1
-			l.mu.Unlock()
-			if current >= 0 {
-				target = &SegmentArtifact{LastOffset: current}
+			if n := len(l.segments); n > 0 {
+				target = &SegmentArtifact{LastOffset: l.segments[n-1].lastOffset}
 			}
+			l.mu.Unlock()
 		}
 		if target != nil {
 			l.onFlush(ctx, target)
